@@ -95,7 +95,12 @@ _re_urlsafe = re.compile("^[a-zA-Z0-9-_~]+$")
 
 
 def __is_urlsafe_characters(s: bytes | str) -> bool:
-    return bool(_re_urlsafe.match(to_str(s)))
+    try:
+        text = to_str(s)
+    except UnicodeDecodeError:
+        # arbitrary octets can only travel as detached content
+        return False
+    return bool(_re_urlsafe.match(text))
 
 
 def _extract_compact(value: bytes, payload: t.Optional[bytes | str] = None) -> t.Any:
